@@ -8,6 +8,7 @@
 import AgeModel.Bech32
 import AgeModel.Extracted.Consts
 import Proofs.GoTieCodec
+import Proofs.GoTieKeys
 namespace AgeModel
 namespace Tie.C09
 open Bech32
@@ -94,6 +95,34 @@ theorem parseRecipient_tie (s : Bytes) :
       | .ok (n, d) => (n, d, none)
       | .error e => ([], [], GoTie.parseRcErr e)) :=
   GoTie.parseRecipient_tie s
+
+/-! The native key strings themselves (x25519.go), translated on every run on top of the translated
+`bech32.Decode` / `Encode`: for every byte string they compute the model's `Keys.parseX25519Recipient`,
+`parseX25519Identity`, `recipientString`, `identityString` — the functions the round-trip,
+canonicity and rejection theorems of `Props.C09` are about. -/
+
+theorem parseX25519Recipient_tie (s : Bytes) :
+    ∃ res, Extracted.age_ParseX25519Recipient s = .ok res ∧
+      match Keys.parseX25519Recipient s with
+      | .ok k => res = (⟨k⟩, none)
+      | .error _ => res.1 = ⟨[]⟩ ∧ res.2 ≠ none :=
+  GoTie.parseX25519Recipient_tie s
+
+theorem recipientString_tie (k : Bytes) :
+    Extracted.age_X25519Recipient_String ⟨k⟩ = .ok (Keys.recipientString k) :=
+  GoTie.recipientString_tie k
+
+theorem parseX25519Identity_tie (X : Bytes → Bytes → Go.M (Bytes × Option Go.Err)) (bp : Bytes)
+    (hX : ∀ a b, ∃ r, X a b = .ok r) (s : Bytes) :
+    ∃ res, Extracted.age_ParseX25519Identity X bp s = .ok res ∧
+      match Keys.parseX25519Identity s with
+      | .ok k => res.2 = none ∧ res.1.secretKey = k ∧ ∃ e, X k bp = .ok (res.1.ourPublicKey, e)
+      | .error _ => res.1 = ⟨[], []⟩ ∧ res.2 ≠ none :=
+  GoTie.parseX25519Identity_tie X bp hX s
+
+theorem identityString_tie (k pub : Bytes) :
+    Extracted.age_X25519Identity_String ⟨k, pub⟩ = .ok (Keys.identityString k) :=
+  GoTie.identityString_tie k pub
 
 end Tie.C09
 end AgeModel
